@@ -171,6 +171,36 @@ def nat_refusal_table():
     return {"status": "REFUTED" if bad else "CONFIRMED", "cexs": bad[:5], "evaluations": ev,
             "note": "labelled enumeration (no data dimension): creation succeeds exactly for the documented relation, else ProviderNotFoundError"}
 
+# hints outside the typed pool (no value generator / conformance oracle): creation must still either succeed or be REFUSED, never fail otherwise
+ODD = {"pipe_int_str": int | str, "pipe_M1_none": M1 | None, "pipe_list_none": list[int] | None, "abc_Sequence": collections.abc.Sequence, "Sequence_bare": typing.Sequence,
+       "Iterable_bare": typing.Iterable, "Mapping_bare": typing.Mapping, "abc_Mapping": collections.abc.Mapping, "Tuple_empty": typing.Tuple[()], "tuple_bare": tuple,
+       "list_bare": list, "dict_bare": dict, "List_bare": typing.List, "Tuple_int_str": typing.Tuple[int, str], "Literal_1": typing.Literal[1], "NoneType": type(None),
+       "None": None, "Callable": typing.Callable[[int], int], "Type_int": typing.Type[int], "TypeVar": T, "FrozenSet_bare": typing.FrozenSet, "Deque_int": typing.Deque[int],
+       "object": object, "bytes": bytes, "pipe_int_none": int | None}
+POOL_ALL = dict(POOL); POOL_ALL.update(ODD)
+def nat_odd_hints():
+    ev, bad = 0, []
+    for o in ODD:
+        for n in list(POOL) + list(ODD):
+            for s, d in ((o, n), (n, o)):
+                ev += 1
+                if not chk_odd_hints(s, d): bad.append({"s": repr(s), "d": repr(d)})
+    return {"status": "REFUTED" if bad else "CONFIRMED", "cexs": bad[:5], "evaluations": ev,
+            "note": "labelled enumeration (no data dimension): converter creation for hints outside the typed pool either succeeds or is refused with ProviderNotFoundError"}
+def chk_odd_hints(s, d):
+    Src = dataclasses.make_dataclass("Src_" + s, [("a", POOL_ALL[s])])
+    Dst = dataclasses.make_dataclass("Dst_" + d, [("a", POOL_ALL[d])])
+    r = try_converter(Src, Dst)
+    if r[0] == "error": return False
+    if r[0] == "ok" and s in POOL and d in ("pipe_int_str", "abc_Sequence", "Sequence_bare", "Tuple_int_str", "Literal_1", "bytes", "Deque_int", "pipe_M1_none", "NoneType", "None"):
+        # a few destinations with an obvious conformance test: accepted pairs must be sound on a sample value
+        out = r[1](Src(mk(s, 1, 1, "s"))).a
+        okd = {"pipe_int_str": lambda v: isinstance(v, (int, str)), "abc_Sequence": lambda v: isinstance(v, collections.abc.Sequence), "Sequence_bare": lambda v: isinstance(v, collections.abc.Sequence),
+               "Tuple_int_str": lambda v: isinstance(v, tuple) and len(v) == 2, "Literal_1": lambda v: v == 1 and type(v) is int, "bytes": lambda v: isinstance(v, bytes),
+               "Deque_int": lambda v: isinstance(v, collections.deque), "pipe_M1_none": lambda v: v is None or type(v) is M1, "NoneType": lambda v: v is None, "None": lambda v: v is None}[d]
+        return okd(out)
+    return True
+
 def chk_refusal_table(s, d):
     Src, Dst = mk_pair(s, d)
     r = try_converter(Src, Dst)
@@ -230,6 +260,11 @@ def build(tier, seed):
     mt = Module("c14_table").pre(SETUP).pre(REF)
     mt.nat("refusal_table", NAT, timeout=300, family="acceptance relation (labelled enumeration)",
            bounds="all 35 x 35 ordered pairs of the pool vs the documented relation")
+    mt.obs.append(type(mt.obs[0])(name="odd_hints", module=mt.key, kind="nat", timeout=300,
+                                  bounds="25 hints outside the typed pool (PEP 604 unions, bare abstract generics, Tuple[()], constant-length tuple, Literal, None, Callable, Type, "
+                                         "TypeVar, object, bytes, ...) x all 60 hints, both directions: converter creation succeeds or is refused with ProviderNotFoundError; "
+                                         "accepted pairs into 10 destinations with an obvious conformance test are sound on a sample value",
+                                  family="acceptance relation: hints outside the typed pool (labelled enumeration)"))
     mt.obs.append(type(mt.obs[0])(name="unlinked", module=mt.key, kind="nat", timeout=60, bounds="required / optional unlinked destination field x policy",
                                   family="unlinked destination fields (labelled enumeration)"))
     from props.C13 import build as build_c13
